@@ -11,6 +11,7 @@ import Driver.C06
 import Driver.C19
 import Driver.C03
 import Driver.C14
+import Driver.C04
 open Driver
 
 def dispatch (line : String) : String :=
@@ -30,6 +31,9 @@ def dispatch (line : String) : String :=
   | "monitor" :: args => C11.monitorOp args
   | "schedmon" :: args => C11.schedmonOp args
   | "depcheck" :: args => C20.depcheck args
+  | "canjoin" :: args => C04.canjoin args
+  | "lfanalyse" :: args => C04.lfanalyse args
+  | "lfpossible" :: args => C04.lfpossible args
   | "flightlog" :: args => C14.flightlog args
   | "flightrun" :: args => C14.flightrun args
   | "cacheops" :: args => C14.cacheops args
